@@ -114,12 +114,30 @@ class LoopSpec:
         out = []
         for g in (r if isinstance(r, (list, tuple)) else [r]):
             out.append(g.e if isinstance(g, SB) else (z3.BoolVal(g) if isinstance(g, bool) else g))
+        return out + self._counter_invariants(loc, idx)
+
+    def _counter_invariants(self, loc, idx):
+        """generated invariant candidates (checked like every other conjunct): a local that enters the loop as a concrete integer c and is
+        augmented in the body (`k += 1`) counts the iterations, k == c + (idx - first index).  This is what ties a hand-written counter of a
+        `while` loop to the index the contract's invariant speaks about; a candidate that does not hold fails as an invariant (undecided)."""
+        out = []
+        lo = getattr(self, "_lo", None)
+        entry = self.entry or {}
+        if lo is None:
+            return out
+        for k in sorted(set(getattr(self, "aug", ()) or ()) & set(getattr(self, "assigned", ()) or ())):
+            e0 = entry.get(k, UNBOUND)
+            cur = loc.get(k, UNBOUND)
+            if isinstance(e0, bool) or not isinstance(e0, int) or cur is UNBOUND or not isinstance(cur, (int, SI)) or isinstance(cur, bool):
+                continue
+            out.append(SI.lift(cur).e == e0 + (idx.e - lo.e))
         return out
 
     def cut(self, vc, label, it, getters):
         c = sym.ctx()
         self.getters = getters
         lo, hi = self.bounds(it)
+        self._lo = lo
         entry = self.read(getters)
         self.entry = entry
         if self.at_entry:
